@@ -847,6 +847,12 @@ class Typer:
                 vt |= self._module_value_type(m, x)
             return ts(Map(EMPTY, vt))
         if isinstance(v, (ast.Tuple, ast.List)):
+            # a table of rows keeps its columns apart: ((A, BlockA), (B, BlockB)) iterated as `for k, b in TABLE`
+            if v.elts and all(isinstance(x, ast.Tuple) for x in v.elts):
+                rows: TypeSet = EMPTY
+                for x in v.elts:
+                    rows |= ts(Tup(tuple(self._module_value_type(m, y) for y in x.elts)))  # type: ignore[attr-defined]
+                return ts(Seq("tuple", rows))
             et: TypeSet = EMPTY
             for x in v.elts:
                 et |= self._module_value_type(m, x)
